@@ -135,9 +135,21 @@ check('C12', TV,
       BASE_NOTE + ' TPTP reader: av/tff.py.', 'SMT (z3) validity of the re-read auto-generated axioms under the standard interpretation',
       'DESIGN.md 5 (C12)')
 
+check('C11', TV,
+      'For every enumerated program, anthem\'s tightness verdict is compared with z3\'s decision whether the positive predicate '
+      'dependency graph (re-derived from the documented definition) admits a ranking function; the regularity verdict is '
+      'compared with the documented definition of regular rules; for every task of an acceptance corpus (one violated '
+      'condition each, with controls, with and without --bypass-tightness) acceptance/refusal is compared with the conjunction '
+      'of the listed conditions, the two acyclicity conditions again decided by z3.',
+      'Trusted base: av/c11.py (graph construction and the documented definitions of tightness, private recursion and regularity), z3. '
+      'Inputs are enumerated; the solver decides acyclicity only (existence of a ranking function). Which error message is reported, and '
+      'acceptance conditions the property does not list, are outside the claim. Consequences of a silently unenforced precondition '
+      'are also seen by C02\'s behavioural link.',
+      'SMT (z3) ranking-function synthesis as the oracle for acyclicity, compared with the real analyses and acceptance decisions',
+      'DESIGN.md 12.6 (C11)')
+
 NOT_APPLICABLE = [
     ('C10', 'thread pool + process spawning + regex over prover output: no symbolic reach for Kani/CBMC (no concurrency/process model) and nothing for an SMT encoding to carry; see DESIGN.md 6'),
-    ('C11', 'graph algorithms over HashMap/petgraph/IndexSet on concrete programs: nothing left for a solver to quantify over, and symbolic programs are out of reach (DESIGN.md 1.1, 6)'),
     ('C14', 'pest PEG parser + fmt printers over Box trees are not executable under CBMC and the property has no semantic layer for SMT (DESIGN.md 6)'),
     ('C15', 'same as C14 for the target-language grammar (DESIGN.md 6)'),
     ('C16', 'quantifies over byte strings through the pest parser and every later stage; out of symbolic reach (DESIGN.md 6)'),
@@ -174,7 +186,7 @@ def main():
     json.dump(m, open('MANIFEST.json', 'w'), indent=1)
 
 
-PLANNED = ['C01', 'C02', 'C03', 'C04', 'C05', 'C06', 'C07', 'C08', 'C09', 'C12', 'C13', 'C17', 'C19']
+PLANNED = ['C01', 'C02', 'C03', 'C04', 'C05', 'C06', 'C07', 'C08', 'C09', 'C11', 'C12', 'C13', 'C17', 'C19']
 
 if __name__ == '__main__':
     main()
